@@ -52,6 +52,7 @@ def check_enc(ctx, n, r, s, enum=False):
     for name, (canon, plain, dec) in ENC.items():
         ctx.ev()
         case = {"kind": "enc", "n": n, "r": r, "s": s, "enc": name}
+        ctx.case_sample(case)
         try:
             out = canon(r, s, n)
             r2, s2 = dec(out, n)
